@@ -61,6 +61,19 @@ pub fn exec(ctx: &mut Ctx, line: &str, rec: &mut Recorder) {
                 }
             }
         }
+        Some("udp-sender-contract") => {
+            rec.impl_only += 1;
+            let idx = rec.case(line.to_string(), "~".into());
+            rec.stat("op.udp-sender-contract");
+            match catch(udp::sender_contract) {
+                Ok(fails) => {
+                    for f in fails {
+                        rec.fail(idx, f, "");
+                    }
+                }
+                Err(p) => rec.fail(idx, format!("panic: {p}"), ""),
+            }
+        }
         Some("consts") => {
             let out = source_consts().unwrap_or_else(|| "?".into());
             rec.case(line.to_string(), out);
@@ -92,8 +105,12 @@ pub fn exec(ctx: &mut Ctx, line: &str, rec: &mut Recorder) {
         }
         Some("begin") => {
             if let ["begin", "mux", tmo, m, st, ..] = t.as_slice() {
-                if let (Ok(tmo), Ok(m), Some(st)) = (tmo.parse::<u64>(), m.parse::<usize>(), match *st { "0" => Some(false), "1" => Some(true), _ => None }) {
-                    ctx.mux = Some(mux::MuxRun::new(tmo, m, st));
+                if let (Ok(tmo), Ok(m), Some(st)) = (tmo.parse::<u64>(), m.parse::<usize>(), match *st { "0" | "0s" => Some(false), "1" | "1s" => Some(true), _ => None }) {
+                    let signer = t[4].ends_with('s');
+                    if signer {
+                        rec.stat("mux.block.with_signer");
+                    }
+                    ctx.mux = Some(mux::MuxRun::new(tmo, m, st, signer));
                     ctx.begin_idx = rec.case(line.to_string(), "ok".into());
                     ctx.ops = 0;
                     rec.stat("op.mux.begin");
@@ -136,6 +153,12 @@ pub fn exec(ctx: &mut Ctx, line: &str, rec: &mut Recorder) {
                     rec.stat(&format!("op.mux.{}", t[0]));
                     let kind = so.out.split(' ').next().unwrap_or("");
                     rec.stat(&format!("mux.{}.{}", t[0], kind));
+                    if t[0] == "send" && t.contains(&"e") {
+                        rec.stat("mux.send.request-does-not-encode");
+                    }
+                    if t[0] == "send" && t.contains(&"x") {
+                        rec.stat("mux.send.axfr-question");
+                    }
                     if t[0] == "deliver" {
                         rec.stat(&format!("mux.deliver.kind.{}", &t[1][..1]));
                     }
@@ -170,7 +193,13 @@ fn source_consts() -> Option<String> {
     let tries = num_after(&mux, "fn next_random_query_id", "for _ in 0..")?;
     let chan = num_after(&mux, "const QUERY_RESPONSE_BUFFER_SIZE: usize", "= ")?;
     let out = num_after(&xfer, "const DEFAULT_STREAM_BUFFER_SIZE: usize", "= ")?;
-    Some(format!("{examined} {qos} {tries} {} {}", chan + 1, out + 1))
+    // NextRandomUdpSocket retries a bind failing with AddrInUse/PermissionDenied while `attempted < ATTEMPT_RANDOM + 1`
+    let udps = rd("crates/net/src/udp/udp_stream.rs")?;
+    let attempt_random = num_after(&udps, "const ATTEMPT_RANDOM: usize", "= ")?;
+    if !udps.contains("&& this.attempted < ATTEMPT_RANDOM + 1") {
+        return None;
+    }
+    Some(format!("{examined} {qos} {tries} {} {} {}", chan + 1, out + 1, attempt_random + 1))
 }
 
 // ------------------------------------------------------------------------------------------------
@@ -275,7 +304,8 @@ fn exec_udp(line: &str, t: &[&str], rec: &mut Recorder) {
     let out = format!(
         "{} c={} k={}",
         run.outcome,
-        run.consumed.iter().map(|x| x.to_string()).collect::<Vec<_>>().join(","),
+        // (a request that does not encode fails before any socket is asked for: still one transmission)
+        if run.consumed.is_empty() { "0".to_string() } else { run.consumed.iter().map(|x| x.to_string()).collect::<Vec<_>>().join(",") },
         not_skipped.as_ref().map(|x| x.0).unwrap_or("-")
     );
     let idx = rec.case(line.to_string(), out);
@@ -311,6 +341,39 @@ fn exec_udp(line: &str, t: &[&str], rec: &mut Recorder) {
             rec.fail(idx, format!("more than 3 datagrams examined in one transmission: transmission {t} took {n} from its socket"), "");
         }
     }
+    // local side of each socket, as the builder options say
+    for (t, bd) in run.bound.iter().enumerate() {
+        let Some(bd) = bd else { continue };
+        let ok = match run.variant {
+            1 => *bd == udp::fixed_bind_addr(&c.server),
+            2 => bd.port() == 0,
+            3 => bd.port() == 0 || !udp::avoided_ports().contains(&bd.port()),
+            _ => bd.port() >= 1024 || (bd.port() == 0 && run.binds[t] > 10),
+        };
+        if !ok || bd.is_ipv4() != c.server.is_ipv4() {
+            rec.fail(idx, format!("transmission {t} bound its socket to {bd} (builder variant {})", run.variant), "");
+        }
+    }
+    rec.stat(&format!("udp.builder-variant.{}", ["default", "with_bind_addr", "os_port_selection", "avoid_local_ports"][run.variant as usize]));
+    if let Some(done) = run.bg_done {
+        rec.stat("udp.entry.exchange()+DnsHandle::send");
+        if !done {
+            rec.fail(idx, "the DnsExchange background task did not end after every handle was dropped", "");
+        }
+    } else {
+        rec.stat("udp.entry.build()+send_message");
+    }
+    for su in &c.setups {
+        if *su != udp::Setup::default() {
+            rec.stat(&format!("udp.setup.{:?}.{:?}", su.bind, su.send).replace(|ch: char| ch.is_ascii_digit() || ch == '(' || ch == ')', ""));
+        }
+    }
+    if c.unencodable {
+        rec.stat("udp.request-does-not-encode");
+    }
+    if c.signer {
+        rec.stat(&format!("udp.with_signer.request-{}", if c.qs.iter().any(|q| q.qtype == 252 || q.qtype == 251) { "signed" } else { "not-signed(no AXFR/IXFR question)" }));
+    }
     if !run.all_sent_to_server {
         rec.fail(idx, "a transmission went to an address other than the queried server", "");
     }
@@ -345,7 +408,7 @@ fn gen_q(r: &mut Rng) -> Q {
     let n = r.range(1, 4) as usize;
     Q {
         labels: (0..n).map(|_| gen_label(r)).collect(),
-        qtype: *r.pick(&[1u16, 1, 1, 28, 15, 16, 2, 6, 255, 65, 12345]),
+        qtype: *r.pick(&[1u16, 1, 1, 28, 15, 16, 2, 6, 255, 65, 12345, 252, 251]),
         qclass: *r.pick(&[1u16, 1, 1, 1, 3, 255, 4000]),
     }
 }
@@ -530,8 +593,12 @@ fn gen_udp(r: &mut Rng) -> UdpCase {
         id: r.next() as u16,
         case_rand: r.chance(1, 2),
         ctor,
+        via_exchange: r.chance(1, 4),
+        unencodable: ctor != 'f' && r.chance(1, 40),
+        signer: r.chance(1, 6),
         qs: (0..nq).map(|_| gen_q(r)).collect(),
         scripts: vec![],
+        setups: vec![],
     };
     let tasks = (c.max_retries as u64).max(1);
     let n_scripts = r.below(tasks + 1).min(4) as usize + if r.chance(1, 2) { 1 } else { 0 };
@@ -581,6 +648,19 @@ fn gen_udp(r: &mut Rng) -> UdpCase {
         }
         used.extend(mine);
         c.scripts.push(sc);
+        // socket set-up of this transmission: mostly fine
+        c.setups.push(if r.chance(1, 8) {
+            let n = *r.pick(&[1u32, 2, 5, 10, 11, 12, 13, 40]);
+            match r.below(6) {
+                0 | 1 => udp::Setup { bind: udp::Bind::InUse(n), send: udp::SendMode::Ok },
+                2 => udp::Setup { bind: udp::Bind::Denied(n), send: udp::SendMode::Ok },
+                3 => udp::Setup { bind: if r.chance(1, 2) { udp::Bind::Other } else { udp::Bind::Slow }, send: udp::SendMode::Ok },
+                4 => udp::Setup { bind: udp::Bind::Ok, send: udp::SendMode::Err },
+                _ => udp::Setup { bind: if r.chance(1, 3) { udp::Bind::InUse(3) } else { udp::Bind::Ok }, send: udp::SendMode::Short },
+            }
+        } else {
+            udp::Setup::default()
+        });
     }
     c
 }
@@ -595,10 +675,13 @@ fn mux_block(r: &mut Rng, ctx: &mut Ctx, rec: &mut Recorder, serial: usize) {
         1 => (r.range(34, 40) as usize, true), // stalled writer: the outbound buffer fills
         _ => (32, false),
     };
-    exec(ctx, &format!("begin mux {timeout} {max_active} {} #{serial}", b(stalled)), rec);
+    let signer = r.chance(1, 6);
+    exec(ctx, &format!("begin mux {timeout} {max_active} {}{} #{serial}", b(stalled), if signer { "s" } else { "" }), rec);
     let mut next_k = 0usize;
+    let mut enc = r.fork();
     let mut send = |ctx: &mut Ctx, rec: &mut Recorder, next_k: &mut usize| {
-        exec(ctx, &format!("send {}", *next_k), rec);
+        // now and then a request that does not encode: error stream, nothing registered
+        exec(ctx, &format!("send {}{}{}", *next_k, if enc.chance(1, 25) { " e" } else { "" }, if enc.chance(1, 4) { " x" } else { "" }), rec);
         *next_k += 1;
     };
     match scenario {
@@ -789,7 +872,25 @@ fn gen_xchg(r: &mut Rng) -> String {
             script.push(if r.chance(1, 2) { "c".into() } else { "e".into() });
         }
     }
-    format!("xchg {k} {flood} {} {}", b(r.chance(1, 2)), if script.is_empty() { "-".to_string() } else { script.join(",") })
+    let mut mods: Vec<String> = vec![];
+    if r.chance(1, 4) {
+        mods.push("clone".into());
+    }
+    if r.chance(1, 6) {
+        mods.push(format!("dropcaller{}", r.below(k as u64)));
+    }
+    if r.chance(1, 8) {
+        mods.push(if r.chance(1, 2) { "bgdrop0".into() } else { "bgdrop1".into() });
+        if r.chance(1, 2) {
+            mods.push("late".into());
+        }
+    }
+    format!(
+        "xchg {k} {flood} {} {}{}",
+        b(r.chance(1, 2)),
+        if script.is_empty() { "-".to_string() } else { script.join(",") },
+        if mods.is_empty() { String::new() } else { format!(" {}", mods.join(",")) }
+    )
 }
 
 /// Small-scope validation of the loop model.  For one single-question request built in each of the
@@ -831,9 +932,87 @@ fn udp_enumerate(ctx: &mut Ctx, rec: &mut Recorder, len: usize) {
         id: 4660,
         case_rand,
         ctor,
+        via_exchange: false,
+        unencodable: false,
+        signer: false,
         qs,
         scripts: vec![sc],
+        setups: vec![],
     };
+    // the other entry point (exchange() + DnsHandle::send): all sequences of length <= 2
+    for ctor in ['n', 'f'] {
+        for case_rand in [false, true] {
+            for l in 0..=2usize {
+                for code in 0..kinds.len().pow(l as u32) {
+                    let mut c = code;
+                    let mut sc = vec![];
+                    for _ in 0..l {
+                        sc.push(kinds[c % kinds.len()].clone());
+                        c /= kinds.len();
+                    }
+                    let mut case = base(case_rand, ctor, vec![q.clone()], sc);
+                    case.via_exchange = true;
+                    exec(ctx, &udp::case_line(&case), rec);
+                }
+            }
+        }
+    }
+    // socket set-up failures (bind retry budget of NextRandomUdpSocket, send errors, short sends), on the
+    // first and on the second transmission, both entry points; and a request that does not encode
+    {
+        use udp::{Bind, SendMode, Setup};
+        let mut sus = vec![];
+        for n in [1u32, 10, 11, 12, 13, 100] {
+            sus.push(Setup { bind: Bind::InUse(n), send: SendMode::Ok });
+            sus.push(Setup { bind: Bind::Denied(n), send: SendMode::Ok });
+        }
+        sus.push(Setup { bind: Bind::Other, send: SendMode::Ok });
+        sus.push(Setup { bind: Bind::Slow, send: SendMode::Ok });
+        sus.push(Setup { bind: Bind::Ok, send: SendMode::Err });
+        sus.push(Setup { bind: Bind::Ok, send: SendMode::Short });
+        sus.push(Setup { bind: Bind::InUse(11), send: SendMode::Short });
+        for su in sus {
+            for via in [false, true] {
+                let mut case = base(false, 'n', vec![q.clone()], vec![kinds[0].clone()]);
+                case.via_exchange = via;
+                case.setups = vec![su];
+                exec(ctx, &udp::case_line(&case), rec);
+                // on the retransmission, the first transmission hearing nothing / only a forgery
+                let mut case = base(true, 'o', vec![q.clone()], vec![kinds[4].clone()]);
+                case.max_retries = 3;
+                case.via_exchange = via;
+                case.scripts.push(vec![kinds[0].clone()]);
+                case.scripts.push(vec![kinds[0].clone()]);
+                case.setups = vec![Setup::default(), su, Setup::default()];
+                exec(ctx, &udp::case_line(&case), rec);
+            }
+        }
+        // a TSIG signer: an AXFR question is signed (the unsigned reply then fails verification), an A question is not
+        let qx = Q { labels: q.labels.clone(), qtype: 252, qclass: 1 };
+        for (asked, section) in [(q.clone(), q.clone()), (qx.clone(), qx.clone()), (qx.clone(), Q { labels: ql.labels.clone(), qtype: 252, qclass: 1 })] {
+            for case_rand in [false, true] {
+                for via in [false, true] {
+                    for pre in [None, Some(kinds[4].clone()), Some(kinds[1].clone())] {
+                        let mut sc: Vec<Ev> = pre.into_iter().collect();
+                        sc.push(d(server, 4660, true, vec![section.clone()]));
+                        sc.push(d(server, 4660, true, vec![asked.clone()]));
+                        let mut case = base(case_rand, 'n', vec![asked.clone()], sc);
+                        case.via_exchange = via;
+                        case.signer = true;
+                        exec(ctx, &udp::case_line(&case), rec);
+                    }
+                }
+            }
+        }
+        for ctor in ['n', 'o', 'm'] {
+            for via in [false, true] {
+                let mut case = base(via, ctor, vec![q.clone()], vec![kinds[0].clone()]);
+                case.via_exchange = via;
+                case.unencodable = true;
+                exec(ctx, &udp::case_line(&case), rec);
+            }
+        }
+    }
     for ctor in ['n', 'o', 'm', 'f'] {
         for case_rand in [false, true] {
             for l in 0..=len {
@@ -900,6 +1079,7 @@ pub fn run(o: &Opts, rec: &mut Recorder) {
     }
     // the constants of the models against the source this harness was built from
     exec(&mut ctx, "consts", rec);
+    exec(&mut ctx, "udp-sender-contract", rec);
     let mut r = Rng::new(o.seed);
     udp_enumerate(&mut ctx, rec, if o.thorough() { 4 } else { 2 });
     let n = o.n(4000, 600_000);
